@@ -11,6 +11,7 @@ import (
 	"errors"
 	"hash/fnv"
 	"net/netip"
+	"slices"
 	"strings"
 )
 
@@ -71,6 +72,7 @@ type Zone struct {
 	Poison    map[Key]Poison    // extra answers owned by unrelated names
 	NXUnknown bool              // names without any data answer NXDOMAIN instead of NOERROR/no data
 	Compress  bool              // use RFC 1035 name compression in responses
+	Order     int               // order of the answer section: 0 CNAME chain first (as resolved), 1 reversed, 2 CNAME records last, 3 rotated by one (the order of RRs in a section carries no meaning)
 	NegSOA    *NegSOA           // when set: a NOERROR response without answers carries this SOA in its authority section (RFC 2308)
 }
 
@@ -206,6 +208,43 @@ func (z *Zone) Answer(name string, qtype uint16, v int) (rrs []RR, rcode int, po
 		}
 	}
 	return rrs, rcode, poisoned
+}
+
+// Reorder applies z.Order to an answer section and reports whether a CNAME
+// record no longer stands before everything reached through it.
+func (z *Zone) Reorder(rrs []RR) ([]RR, bool) {
+	if z.Order == 0 || len(rrs) < 2 {
+		return rrs, false
+	}
+	out := append([]RR{}, rrs...)
+	switch z.Order {
+	case 1:
+		slices.Reverse(out)
+	case 2:
+		slices.SortStableFunc(out, func(a, b RR) int {
+			ca, cb := a.Type == TypeCNAME, b.Type == TypeCNAME
+			switch {
+			case ca == cb:
+				return 0
+			case cb:
+				return -1
+			}
+			return 1
+		})
+	default:
+		out = append(out[1:], out[0])
+	}
+	for i, rr := range out {
+		if rr.Type != TypeCNAME {
+			continue
+		}
+		for _, before := range out[:i] {
+			if strings.EqualFold(before.Owner, rr.Target) {
+				return out, true
+			}
+		}
+	}
+	return out, false
 }
 
 var errName = errors.New("dohfake: illegal name in zone data")
